@@ -165,12 +165,14 @@ def render_case(n, case):
     if case.get("adapter"):
         adef = "@W.sync_adapter\n%sasync def"
     pattern = case.get("interleave", 0)
+    bodyfn = "await W.abody" if "async" in adef else "W.body"
+    hop = ", hop=True" if case.get("hop") else ""
     if kind == "function":
         helpers = []
         decos = render_decorators(case["levels"][-1], helpers, ind1, pattern)
         L += helpers + decos
-        L.append("%s%s f(%s): return W.body(%s)" % (ind1, adef % ind1 if "%s" in adef else adef, sig_with_defaults(fsig), body_env(fsig)))
-        L.append("%sreturn W.run(lambda: f(*ARGS, **KWARGS), %s)" % (ind1, is_async))
+        L.append("%s%s f(%s): return %s(%s)" % (ind1, adef % ind1 if "%s" in adef else adef, sig_with_defaults(fsig), bodyfn, body_env(fsig)))
+        L.append("%sreturn W.run(lambda: f(*ARGS, **KWARGS), %s%s)" % (ind1, is_async, hop))
         return "\n".join(L)
     # class-based kinds
     nlev = len(case["levels"])
@@ -199,15 +201,15 @@ def render_case(n, case):
         L.append("%s_icv_tag = 900" % ind2)
         if kind == "method":
             L += decos
-            L.append("%s%s f(%s): return W.body(%s)" % (ind2, adef % ind2 if "%s" in adef else adef, sig_with_defaults(fsig), body_env(fsig)))
+            L.append("%s%s f(%s): return %s(%s)" % (ind2, adef % ind2 if "%s" in adef else adef, sig_with_defaults(fsig), bodyfn, body_env(fsig)))
         elif kind == "staticmethod":
             L.append("%s@staticmethod" % ind2)
             L += decos
-            L.append("%s%s f(%s): return W.body(%s)" % (ind2, adef % ind2 if "%s" in adef else adef, sig_with_defaults(fsig), body_env(fsig)))
+            L.append("%s%s f(%s): return %s(%s)" % (ind2, adef % ind2 if "%s" in adef else adef, sig_with_defaults(fsig), bodyfn, body_env(fsig)))
         elif kind == "classmethod":
             L.append("%s@classmethod" % ind2)
             L += decos
-            L.append("%s%s f(%s): return W.body(%s)" % (ind2, adef % ind2 if "%s" in adef else adef, sig_with_defaults(fsig), body_env(fsig)))
+            L.append("%s%s f(%s): return %s(%s)" % (ind2, adef % ind2 if "%s" in adef else adef, sig_with_defaults(fsig), bodyfn, body_env(fsig)))
         elif kind == "prop_get":
             L.append("%s@property" % ind2)
             L += decos
@@ -236,9 +238,9 @@ def render_case(n, case):
     if kind in ("method", "prop_get", "prop_set", "prop_del"):
         L.append("%sinst = %s()" % (ind1, K))
     if kind == "method":
-        L.append("%sreturn W.run(lambda: inst.f(*ARGS, **KWARGS), %s)" % (ind1, is_async))
+        L.append("%sreturn W.run(lambda: inst.f(*ARGS, **KWARGS), %s%s)" % (ind1, is_async, hop))
     elif kind in ("staticmethod", "classmethod"):
-        L.append("%sreturn W.run(lambda: %s.f(*ARGS, **KWARGS), %s)" % (ind1, K, is_async))
+        L.append("%sreturn W.run(lambda: %s.f(*ARGS, **KWARGS), %s%s)" % (ind1, K, is_async, hop))
     elif kind == "prop_get":
         L.append("%sreturn W.run(lambda: inst.p, False)" % ind1)
     elif kind == "prop_set":
